@@ -24,7 +24,7 @@ MaxFlagLen == 3
 Special(name, head, unit, count, tail, expect) == [name |-> name, head |-> U(head), unit |-> U(unit), count |-> count, tail |-> U(tail), expect |-> expect]
 \* huge counts over bodies that match only the empty string (most of them compile to few or no instructions): the count
 \* is the only thing that is large, so construction has to be bounded in the count.  "outside": an implementation may refuse
-\* them as too large and whether a quantified assertion (\b{n}) is in the grammar is the business of the string space;
+\* them as too large and whether a quantified assertion (\b{n}) is in the grammar is an accept / reject question (string space);
 \* judged here: defined outcome in every channel, the channels agree, and the compiler's work is bounded (ConsWorkOK).
 EmptyBodies == {<<"nc", "(?:)">>, <<"cap", "()">>, <<"la", "(?=)">>, <<"alt", "(?:|)">>, <<"wb", "\\b">>}
 HugeCounts == {<<"1e6", "1000000">>, <<"1e9", "1000000000">>, <<"2to1e9", "2,1000000000">>}
